@@ -87,6 +87,22 @@ def seq_behaviour(cls, text):
         c[0] = text[-1]
         if str(c) != text[-1] + text[1:] or str(s) != text:
             return "assignment through a copy changed the original or failed"
+    # derived sequences are values of their own (documented: the code is copied): assigning into one does not
+    # change the sequence it was made from, whatever the length
+    if len(text) > 0:
+        derived = {"reverse()": s.reverse(), "s + s": s + s, "copy()": s.copy(), "s[:] of a copy": s.copy()[:]}
+        if cls is seq.NucleotideSequence:
+            derived["complement()"] = s.complement()
+            derived["reverse().complement()"] = s.reverse().complement()
+        for how, d in derived.items():
+            if how == "s[:] of a copy":
+                continue
+            other = [x for x in s.get_alphabet().get_symbols() if x != d[0]][0]
+            d[0] = other
+            if len(d) > 1:
+                d[-1] = other
+            if str(s) != text:
+                return f"assigning into {how} changed the original: {str(s)!r} instead of {text!r}"
     if cls is seq.NucleotideSequence:
         comp = {"A": "T", "C": "G", "G": "C", "T": "A", "N": "N", "R": "Y", "Y": "R", "S": "S", "W": "W", "K": "M", "M": "K",
                 "B": "V", "V": "B", "D": "H", "H": "D"}
@@ -182,6 +198,66 @@ def translate_contract(table_id):
 for tid in (1, 2, 4, 11):
     R.check("translation == codon-wise lookup; derived tables leave the parent untouched", f"codon table {tid}", {"table": tid},
             lambda tid=tid: translate_contract(tid))
+
+
+def codon_table_api(table_id):
+    """every view of a codon table agrees with its codon -> amino acid dictionary: symbol and code look-ups in both
+    directions, the vectorised map_codon_codes / is_start_codon, start codons, and tables derived from it"""
+    table = seq.CodonTable.load(table_id)
+    nuc, prot = seq.NucleotideSequence.alphabet_unamb, seq.ProteinSequence.alphabet
+    cd = table.codon_dict()
+    if sorted(cd) != sorted("".join(c) for c in itertools.product("ACGT", repeat=3)):
+        return "codon_dict() does not list the 64 codons"
+    cdc = table.codon_dict(code=True)
+    for codon, aa in cd.items():
+        code = tuple(int(x) for x in nuc.encode_multiple(codon))
+        if table[codon] != aa:
+            return f"table[{codon!r}] = {table[codon]!r}, codon_dict says {aa!r}"
+        if int(table[code]) != prot.encode(aa) or int(table[list(code)]) != prot.encode(aa) or int(table[np.array(code)]) != prot.encode(aa):
+            return f"table[{code}] = {table[code]}, the code of {aa!r} is {prot.encode(aa)}"
+        if int(cdc[code]) != prot.encode(aa):
+            return f"codon_dict(code=True)[{code}] = {cdc[code]}"
+    for aa in sorted(set(cd.values())) + ["X"]:
+        exp = sorted(c for c, a in cd.items() if a == aa)
+        if sorted(table[aa]) != exp:
+            return f"table[{aa!r}] = {sorted(table[aa])}, the codons of that amino acid are {exp}"
+        expc = sorted(tuple(int(x) for x in nuc.encode_multiple(c)) for c in exp)
+        if sorted(tuple(int(x) for x in c) for c in table[prot.encode(aa)]) != expc:
+            return f"table[code of {aa!r}] = {table[prot.encode(aa)]}"
+    all_codes = np.array(list(itertools.product(range(4), repeat=3)))
+    mapped = table.map_codon_codes(all_codes)
+    exp = [prot.encode(cd["".join(nuc.decode_multiple(c))]) for c in all_codes]
+    if [int(x) for x in mapped] != exp:
+        return "map_codon_codes differs from the codon dictionary"
+    if [int(x) for x in table.map_codon_codes(all_codes[::-1][:7])] != exp[::-1][:7] or len(table.map_codon_codes(all_codes[:0])) != 0:
+        return "map_codon_codes on a reordered / empty batch differs from the codon dictionary"
+    starts = set(table.start_codons())
+    if set(tuple(int(x) for x in c) for c in table.start_codons(code=True)) != {tuple(int(x) for x in nuc.encode_multiple(c)) for c in starts}:
+        return "start_codons(code=True) differs from start_codons()"
+    isstart = table.is_start_codon(all_codes)
+    if [bool(x) for x in isstart] != ["".join(nuc.decode_multiple(c)) in starts for c in all_codes]:
+        return "is_start_codon differs from start_codons()"
+    d2 = table.with_start_codons(["AAA", "CCC"])
+    if set(d2.start_codons()) != {"AAA", "CCC"} or d2.codon_dict() != cd or set(table.start_codons()) != starts:
+        return "with_start_codons"
+    d3 = table.with_codon_mappings({"AAA": "W", "TGA": "C"})
+    exp3 = dict(cd, AAA="W", TGA="C")
+    if d3.codon_dict() != exp3 or table.codon_dict() != cd or set(d3.start_codons()) != starts:
+        return "with_codon_mappings"
+    if not (table == seq.CodonTable.load(table_id)) or table == d3 or (table == d2) != (starts == {"AAA", "CCC"}):
+        return "== of codon tables"
+    for bad in ("AA", "AAAA", ""):
+        try:
+            table[bad]
+            return f"table[{bad!r}] did not raise"
+        except (ValueError, seq.AlphabetError, KeyError, IndexError):
+            pass
+    return None
+
+
+for tid in (1, 2, 3, 4, 5, 6, 11, 12):
+    R.check("translation == codon-wise lookup; derived tables leave the parent untouched", f"codon table API {tid}", {"table": tid},
+            lambda tid=tid: codon_table_api(tid))
 
 
 def orf_contract(text):
